@@ -23,6 +23,8 @@ type Ctx struct {
 	secondPass, collectOnly bool
 	cfgOverride             *bounds.Config
 	thoroughOK              map[string]bool
+	lenPairsSeen            map[ssa.Instruction]bool // length-prefix/data pairs reached by the BOUNDS run (C10, C13, C14)
+	fragLoopsSeen           map[*ssa.BasicBlock]bool // fragment loops whose entry edge the BOUNDS run reached (C10, C14)
 	// functions in which possibly-wrapping narrow arithmetic is reported (rule BOUNDS.WRAP)
 	wrapScope map[string]bool
 }
